@@ -129,10 +129,11 @@ def explore(ctx, scale=1.0):
     # ---------------- (3) threads ----------------
     rounds = int((5 if ctx.thorough else 1) * scale)
     texts = [t for t in pool if len(t) < 3000][:40]
-    def work(text, com):
+    versions = [7.6, 5.6, 6.0, 6.2, 6.4, 7.0, 7.2, 7.4, 8.0, 8.2, 8.4, 5.4]
+    def work(text, com, ver=7.6):
         d = mappyfile.loads(text, include_comments=com, expand_includes=False)
         out = mappyfile.dumps(d) if isinstance(d, dict) else ""
-        msgs = mappyfile.validate(d, 7.6) if isinstance(d, dict) and d.get("__type__") == "map" else []
+        msgs = mappyfile.validate(d, ver) if isinstance(d, dict) and d.get("__type__") == "map" else []
         names = mappyfile.findall(d.get("layers", []), "name", "a") if isinstance(d, dict) else []
         return snap(d), out, len(msgs), len(names)
     old = sys.getswitchinterval()
@@ -141,10 +142,12 @@ def explore(ctx, scale=1.0):
         for t in range(16):
             same = t % 2 == 0
             jobs.append([(texts[0] if same else rng.choice(texts), rng.random() < .7) for _ in range(6 if ctx.thorough else 3)])
-        expected = [[outcome(lambda a=a, c=c: work(a, c)) for a, c in job] for job in jobs]
+        # the threads go FIRST, with a version this process has not validated against yet (a shared schema cache would be cold:
+        # the widest race window); the sequential reference is computed afterwards
+        ver = versions[(ctx.seed + r) % len(versions)] if hasattr(ctx, "seed") else versions[r % len(versions)]
         results = [None] * 16
         def runner(i):
-            results[i] = [outcome(lambda a=a, c=c: work(a, c)) for a, c in jobs[i]]
+            results[i] = [outcome(lambda a=a, c=c: work(a, c, ver)) for a, c in jobs[i]]
         sys.setswitchinterval(1e-6)
         try:
             ths = [threading.Thread(target=runner, args=(i,)) for i in range(16)]
@@ -154,12 +157,13 @@ def explore(ctx, scale=1.0):
                 th.join()
         finally:
             sys.setswitchinterval(old)
+        expected = [[outcome(lambda a=a, c=c: work(a, c, ver)) for a, c in job] for job in jobs]
         ctx.case(("threads", r), True); ctx.count("thread-rounds"); ctx.count("thread-calls", sum(len(j) for j in jobs))
         for i in range(16):
             if results[i] != expected[i]:
                 k = next(k for k, (a, b) in enumerate(zip(results[i], expected[i])) if a != b)
                 ctx.violation("threads", "a call of the module-level API gives a different result when other threads are running than sequentially",
-                              {"text": jobs[i][k][0], "include_comments": jobs[i][k][1], "thread": i, "round": r})
+                              {"text": jobs[i][k][0], "include_comments": jobs[i][k][1], "version": ver, "thread": i, "round": r})
                 break
 
 
